@@ -94,7 +94,8 @@ def gen_restrict(rng):
 
     return {'src': rng.choice(SRCS), 'lines': lines, 'creds': creds,
             'ca_callback': rng.choice([None, None, 'ca_ed25519', 'ca_rsa']),
-            'agent_fault': rng.choice(AGENT_FAULTS)}
+            'agent_fault': rng.choice(AGENT_FAULTS),
+            'client_env': rng.chance(40)}
 
 
 def valid_restrict(r):
@@ -495,7 +496,12 @@ def run_restrict(world, plan):
 
             # session without a terminal: command and environment
             try:
-                chan, _ = await conn.create_session(ClientSess, 'real-cmd')
+                # the client may try to set the variable an environment=
+                # option sets, and another one
+                env = {'VERIF_ENV': 'from-client', 'VERIF_OTHER': 'x'} \
+                    if r.get('client_env') else {}
+                chan, _ = await conn.create_session(ClientSess, 'real-cmd',
+                                                    env=env)
                 p['exec'] = True
                 chan.close()
                 await chan.wait_closed()
@@ -599,9 +605,17 @@ def run_restrict(world, plan):
         else:
             env = sess[0].get('env', {})
 
-            if expect['env'] != (env.get('VERIF_ENV') == 'from-line'):
-                bad.append('environment option: expected %s, session '
-                           'environment %r' % (expect['env'], env))
+            want_env = 'from-line' if expect['env'] else \
+                'from-client' if r.get('client_env') else None
+
+            if env.get('VERIF_ENV') != want_env:
+                bad.append('environment option: expected VERIF_ENV=%r, '
+                           'session environment %r' % (want_env, env))
+            elif r.get('client_env') and env.get('VERIF_OTHER') != 'x':
+                bad.append('client environment: VERIF_OTHER not set, '
+                           'session environment %r' % (env,))
+            elif r.get('client_env'):
+                sim.probes['client_env_sent'] += 1
 
         if (p.get('pty') is True) != expect['pty']:
             bad.append('terminal request: allowed=%s, outcome %r' %
